@@ -115,6 +115,7 @@ class DataStreamProcessor:
         except CastError as e:
             for err in e.errors:
                 logging.error('%s', err)
+            self.raise_exception(e)
         except Exception as exception:
             self.raise_exception(exception)
         return ds, results
